@@ -171,6 +171,20 @@ def run(ctx):
             if es is None:
                 o.undecided("build result is not bound to a local", fn, bc)
                 continue
+            # the entries sharing a motif id are EXACTLY the edges the callback returned: the result is recorded as it comes
+            bst = g.par.stmt_of(bc)
+            bval = bst.value if isinstance(bst, (ast.Assign, ast.AnnAssign)) else None
+            w_ = bval
+            while isinstance(w_, ast.Call) and w_ is not bc and txt(w_.func) in ("list", "tuple") and len(w_.args) == 1:
+                w_ = w_.args[0]
+            if w_ is bc:
+                o.holds(fn, bst, f"`{es}` is what the build callback returned")
+            elif isinstance(w_, ast.Call) and txt(w_.func) in ("set", "frozenset", "sorted", "dict.fromkeys", "filter", "reversed") and any(x is bc for x in ast.walk(w_)):
+                o.violated(fn, bst, f"the build callback's result is passed through `{txt(w_.func)}(..)` before it is recorded: repeated pairs (a vertex drawn twice into one motif "
+                                    "returns the same pair twice) collapse / the edges are re-ordered - the entries sharing the motif id are no longer exactly the edges the callback "
+                                    "returned", shape_free=True)
+            else:
+                o.undecided(f"`{es}` is not the build callback's result itself (`{txt(bval)[:60] if bval is not None else '?'}`)", fn, bst)
             L = Lengths(g, es, bc, None)
             paths = _paths(loop.body)
             # all column growth must be at path level (not in deeper loops)
